@@ -858,7 +858,7 @@ func instrumentLocks(scratch string) map[string]string {
 		}
 		src, err := os.ReadFile(path)
 		if err != nil || !(bytes.Contains(src, []byte(".Lock()")) || bytes.Contains(src, []byte(".RLock()")) ||
-			bytes.Contains(src, []byte(".View(")) || bytes.Contains(src, []byte(".Update(")) || bytes.Contains(src, []byte(".NewTransaction(")) || bytes.Contains(src, []byte(".Commit()"))) {
+			bytes.Contains(src, []byte(".View(")) || bytes.Contains(src, []byte(".Update(")) || bytes.Contains(src, []byte(".NewTransaction(")) || bytes.Contains(src, []byte(".Commit()")) || bytes.Contains(src, []byte(".Backup(")) || bytes.Contains(src, []byte(".MaxVersion()"))) {
 			return nil
 		}
 		fset := token.NewFileSet()
@@ -896,9 +896,19 @@ func instrumentLocks(scratch string) map[string]string {
 					if len(t.Results) == 1 {
 						top = t.Results[0]
 					}
+				case *ast.IfStmt:
+					// if err := x.Update(..); err != nil { .. }: the call in the init statement
+					switch it := t.Init.(type) {
+					case *ast.AssignStmt:
+						if len(it.Rhs) == 1 {
+							top = it.Rhs[0]
+						}
+					case *ast.ExprStmt:
+						top = it.X
+					}
 				}
 				if tc, ok := top.(*ast.CallExpr); ok {
-					if sel, ok := tc.Fun.(*ast.SelectorExpr); ok && (sel.Sel.Name == "View" || sel.Sel.Name == "Update" || sel.Sel.Name == "NewTransaction") {
+					if sel, ok := tc.Fun.(*ast.SelectorExpr); ok && (sel.Sel.Name == "View" || sel.Sel.Name == "Update" || sel.Sel.Name == "NewTransaction" || sel.Sel.Name == "Backup" || sel.Sel.Name == "MaxVersion") {
 						line := fset.Position(tc.Lparen).Line
 						text := fmt.Sprintf("verifhook.Point(%q); ", fmt.Sprintf("txn:%s:%d", filepath.Base(path), line))
 						if sel.Sel.Name == "Update" {
